@@ -340,9 +340,13 @@ func Replay(t *testing.T, pkg string, fns map[string]func()) {
 	if s := os.Getenv("VERIF_ONLY"); s != "" {
 		fmt.Sscan(s, &only)
 	}
+	shardK, shardN := 0, 1
+	if s := os.Getenv("VERIF_SHARD"); s != "" {
+		fmt.Sscanf(s, "%d/%d", &shardK, &shardN)
+	}
 	for i := range ws {
 		w := &ws[i]
-		if w.Pkg != pkg || (only >= 0 && i != only) || (only < 0 && w.Event == "alloc") {
+		if w.Pkg != pkg || (only >= 0 && i != only) || (only < 0 && w.Event == "alloc") || (only < 0 && i%shardN != shardK) {
 			continue
 		}
 		f := fns[w.Harness]
